@@ -97,6 +97,8 @@ from . import spec as S
 def all_str(interp, seqs):
     if isinstance(seqs, VList) and isinstance(seqs.content, SymSeq):
         ek = seqs.content.elem_kind
+        if ek is None and isinstance(seqs.content.at(z3.Int("k!probe")), VStr):
+            return z3.BoolVal(True)
         if isinstance(ek, T.StrT):
             return z3.BoolVal(True)
         if isinstance(ek, AnyElemT):
